@@ -68,9 +68,13 @@ namespace pika {
                 }
                 catch (...)
                 {
-                    // reset status to initial, release waiting threads
-                    flag.status_.store(0);
+                    // release waiting threads, then reset status to initial. The event has to be
+                    // set first: if the status was reset first another caller could start its
+                    // attempt (and reset the event) before the event is set here, which would
+                    // leave the event set while that attempt runs and make all other callers
+                    // spin in this loop without ever suspending
                     flag.event_.set();
+                    flag.status_.store(0);
 
                     throw;
                 }
